@@ -17,7 +17,11 @@ sh(f"git -C /repo worktree add -q --detach {WT} HEAD", check=True)
 res = {"id": NAME, "property": ID[:3]}
 try:
     patch = f"{OUT}/patch.diff"
-    sh(f"git apply {patch}", cwd=WT, check=True)
+    if sh(f"git apply {patch}", cwd=WT).returncode != 0:
+        sh(f"git apply -3 {patch}", cwd=WT, check=True)
+        sh("git reset -q", cwd=WT)
+        sh(f"git diff > {OUT}/patch.rebased.diff", cwd=WT)
+        patch = f"{OUT}/patch.rebased.diff"
     touched = sh("git diff --name-only", cwd=WT).stdout.split()
     assert touched and not any(t.endswith("_test.go") for t in touched), touched
     sh("go build ./...", cwd=WT, check=True)
